@@ -33,7 +33,8 @@ def meek_collapse_class(p, o):
     """inputs on which the Meek/Warren iteration cannot converge within its arithmetic:
     S: fewer supported candidates than seats (quota and keep factors decay geometrically towards zero);
     P: keep-factor resolution 10^-(p+g) coarser than omega/nballots;
-    L: five or fewer digits in all"""
+    L: five or fewer digits in all;
+    G: guarded with g > 0 and 2*nballots >= 10^g (rounding error summed over the ballots exceeds the tolerance)"""
     if o['rule'] not in ('meek', 'warren'):
         return None
     c = gen.config(o)
@@ -47,6 +48,8 @@ def meek_collapse_class(p, o):
         return 'P'
     if digits <= 5:
         return 'L'
+    if c['arith'] == 'guarded' and c['g'] > 0 and 2 * nb >= 10 ** c['g']:
+        return 'G'      # accumulated rounding error (one unit per ballot) can exceed the comparison tolerance 10^g/2 units
     return None
 
 
@@ -71,7 +74,7 @@ def match(prop, r, signature):
         return 'M5'
     cls = meek_collapse_class(p, o)
     if cls is not None:
-        if signature in ('CRASH ZeroDivisionError', 'CRASH AssertionError', 'CRASH IndexError'):
+        if signature in ('CRASH ZeroDivisionError', 'CRASH AssertionError', 'CRASH IndexError', 'CRASH Hang'):
             return 'M1'
         if signature in ('C08k', 'C09', 'C01', 'C04c', 'C05', 'EXC'):
             return 'M2'
